@@ -736,6 +736,12 @@ func (r *rewriter) exprs(st ast.Stmt, yields bool, fn string) bool {
 			return
 		}
 		if c, ok := (*e).(*ast.CallExpr); ok {
+			if id, ok := c.Fun.(*ast.Ident); ok && id.Name == "len" && len(c.Args) == 1 && r.isChan(c.Args[0]) {
+				*e = call("Len", c.Args[0])
+				r.rep.Counts["len"]++
+				changed = true
+				return
+			}
 			if id, ok := c.Fun.(*ast.Ident); ok && id.Name == "close" && len(c.Args) == 1 && r.isChan(c.Args[0]) {
 				*e = call("Close", c.Args[0])
 				r.rep.Counts["close"]++
@@ -772,6 +778,12 @@ func (r *rewriter) exprs(st ast.Stmt, yields bool, fn string) bool {
 		case *ast.BinaryExpr:
 			replaceIn(&x.X)
 			replaceIn(&x.Y)
+		case *ast.ParenExpr:
+			replaceIn(&x.X)
+		case *ast.UnaryExpr:
+			if x.Op != token.ARROW {
+				replaceIn(&x.X)
+			}
 		case *ast.IfStmt:
 			if x.Init != nil {
 				ast.Inspect(x.Init, walk)
